@@ -315,6 +315,8 @@ func (m *Mercury) doRemoveNode(ctx context.Context, podname, nodename, endpoint 
 		fmt.Sprintf(nodeCaKey, nodename),
 		fmt.Sprintf(nodeCertKey, nodename),
 		fmt.Sprintf(nodeKeyKey, nodename),
+		// the status belongs to the node: it must not outlive it
+		filepath.Join(nodeStatusPrefix, nodename),
 	}
 
 	_, err := m.BatchDelete(ctx, keys)
